@@ -4,7 +4,7 @@
    statement holds for any scalar structure S (reals, binary64) and for decks of
    any size. *)
 From Coq Require Import List NArith ZArith Bool String Ascii Lia.
-From T4V Require Import Base.Str Base.Scalar C17.Model C17.Proofs C17.ProofsStrings C17.ProofsSteps C17.ProofsClasses C17.ProofsSteps2.
+From T4V Require Import Base.Str Base.Scalar C17.Model C17.Proofs C17.ProofsStrings C17.ProofsSteps C17.ProofsClasses C17.ProofsSteps2 C17.ProofsSteps3.
 Import ListNotations.
 Open Scope string_scope.
 
@@ -438,6 +438,47 @@ Theorem C17_arrives_options_more : forall T (S : Scalar T) trs,
      exists k', arrives S trs (e :: first :: rs ++ nums ++ ps ++ rest)%list k rest k' 1).
 Proof. exact @p_C17_arrives_options_more. Qed.
 Print Assumptions C17_arrives_options_more.
+
+(* ... and FILL arrays written with plain numbers, nR and nJ ([items]), followed
+   by nothing, a TR number or an inline transformation; FILL=n (m) *)
+Theorem C17_arrives_options_arrays : forall T (S : Scalar T) trs,
+  (* a FILL array (first entry a plain number, then plain numbers, nR, nJ, the
+     counts adding up to size(ranges)) and whatever the transformation reader
+     accepts behind it *)
+  (forall e first rs t0 l more b m n rest k,
+     prefix "imp" (tsp e) = false -> contains_sub "fill" (tsp e) = true ->
+     has_colon first = true -> forallb has_colon rs = true -> has_colon t0 = false ->
+     parse_ranges (map tsp (first :: rs)) = Ok b ->
+     plain t0 -> items l m -> Z.of_nat (1 + m) = bounds_size b ->
+     fill_params S true (contains_char "*" (tsp e)) trs more = Ok (n, rest) ->
+     exists k', arrives S trs (e :: first :: rs ++ t0 :: l ++ more)%list k rest k' 1) /\
+  (* FILL=n (m) with an existing TR card m *)
+  (forall e u p rest k n,
+     prefix "imp" (tsp e) = false -> contains_sub "fill" (tsp e) = true ->
+     has_colon u = false -> float_lit (tsp u) = true ->
+     numeric_lead p = true -> num_lit (tsp p) = true -> stops rest ->
+     lookup (tint p) trs = Some n ->
+     exists k', arrives S trs (e :: u :: p :: rest) k rest k' 1) /\
+  (* what the transformation reader accepts: nothing or 2, 3, 6, 9, 12, 14+
+     numbers; one number naming a TR card *)
+  (forall isfill star (ps rest : list (tok (T:=T))),
+     forallb numeric_lead ps = true -> forallb (fun p => num_lit (tsp p)) ps = true ->
+     stops rest -> List.length ps <> 1%nat -> List.length ps <> 13%nat ->
+     tr_len_ok (List.length ps) = true ->
+     exists n, fill_params S isfill star trs (ps ++ rest)%list = Ok (n, rest)) /\
+  (forall isfill star (p : tok (T:=T)) rest k,
+     numeric_lead p = true -> num_lit (tsp p) = true -> stops rest ->
+     lookup (tint p) trs = Some k ->
+     fill_params S isfill star trs (p :: rest) = Ok (Nat.min k 12, rest)).
+Proof. exact @p_C17_arrives_options_arrays. Qed.
+Print Assumptions C17_arrives_options_arrays.
+
+(* FILL=0:1 0:1 0:0 3 3R : the entries behind the first one *)
+Example items_example : forall T (S : Scalar T), items [tk S "3r" 0]%Z 3.
+Proof.
+  intros. change 3%nat with (3 + 0)%nat. apply its_cons; [|apply its_nil].
+  apply it_rep; [reflexivity|reflexivity|auto].
+Qed.
 
 (* ---------------- the open finding classes, characterised ---------------- *)
 
